@@ -44,8 +44,22 @@ def gen(rng, tier):
     return cases
 
 
+import os as _os
+import sys as _sys
+
+_sys.path.insert(0, _os.path.join(_os.path.dirname(_os.path.dirname(_os.path.abspath(__file__))), "extract"))
+import wake_extract  # noqa: E402
+
+
+def pre(repo):
+    """translator step (facts no trace shows): the manager's wake loops wait without bound for an
+    announced waiter and wake exactly the number asked for"""
+    wake_extract.check(repo)
+
+
 SPEC = {
     "C12": {
+        "pre": pre,
         "parts": [{"name": "barrier", "harness": "barrier", "model": "Barrier", "runtime": True, "gen": gen,
                    # BUDGET alone is inconclusive (a strict-priority schedule can starve a kernel
                    # thread for ever); the Lean end-of-log oracle `stuck` flags the runs that can
